@@ -5,6 +5,7 @@ package wire
 
 import (
 	"crypto/rand"
+	mrand "math/rand"
 	"encoding/hex"
 	"flag"
 	"fmt"
@@ -21,6 +22,7 @@ import (
 	"gitlab.com/yawning/obfs4.git/transports/base"
 
 	"verifsim/harness"
+	"verifsim/ref/obfs4ref"
 	"verifsim/simnet"
 )
 
@@ -155,6 +157,24 @@ func setBias(on bool) {
 	if err := flag.Set("obfs4-distBias", v); err != nil {
 		panic(err)
 	}
+}
+
+// range sizes of the obfs4 client and server handshake padding
+var obfs4PadRanges = []int{obfs4ref.ClientMaxPad - obfs4ref.ClientMinPad + 1, obfs4ref.ServerMaxPad + 1}
+
+// steerPads installs harness.SteeredSource behind csrand.Rand for this run
+// (two runs in three).
+func steerPads(c *harness.Ctx, ranges ...int) {
+	if c.T.Draw("steer-rand", 3) == 0 {
+		return
+	}
+	src := harness.NewSteeredSource(csrand.Bytes, ranges...)
+	orig := csrand.Rand
+	csrand.Rand = mrand.New(src)
+	c.AtEnd(func() {
+		csrand.Rand = orig
+		c.S.Count("fault.steered-random-draw", src.Hits())
+	})
 }
 
 func dialTo(conn net.Conn) base.DialFunc {
